@@ -207,6 +207,27 @@ def step (st : St) (toks : List String) : St × String :=
   | "sr" :: prim :: rest =>
     let (v, r) := sreadTok prim (rest.headD "0") st.sbuf
     ({ st with sbuf := r }, v ++ " rem=" ++ toString r.length)
+  | "sbig" :: flds =>
+    -- several large var-bytes fields written and read back-to-back with the streaming codec (values compared at the end)
+    let parsed := flds.filterMap fun t =>
+      match t.splitOn ":" with
+      | [n, h] => match natTok n, Hex.ofHex h with
+        | some n, some [b] => some (n, b)
+        | _, _ => none
+      | _ => none
+    if parsed.length != flds.length then (st, "bad-op")
+    else
+      let stream := parsed.foldl (fun acc (nb : Nat × UInt8) => acc ++ Stream.wVarBytes (List.replicate nb.1 nb.2)) []
+      let rec go (fs : List (Nat × UInt8)) (bs : Bytes) (ok : Bool) : Option (Bool × Bytes) :=
+        match fs with
+        | [] => some (ok, bs)
+        | (n, b) :: rest =>
+          match Stream.readVarBytes bs with
+          | (.ok v, r) => go rest r (ok && v == List.replicate n b)
+          | (.error _, _) => none
+      match go parsed stream true with
+      | none => (st, "FAIL:read")
+      | some (ok, r) => (st, (if ok then "ok" else "FAIL:value-changed-later") ++ " k=" ++ toString parsed.length ++ " rem=" ++ toString r.length)
   | ["rt", prim, val, suffix] =>
     match Hex.ofHex suffix with
     | some suf =>
